@@ -134,7 +134,7 @@ func c13Jobs(tier string) []*Job {
 			for _, start := range []uint32{4, 5} {
 				sc := scen(fmt.Sprintf("C13-watchflag%d-N4-start%d-%s", pos, start, amevName(a)), 4, withAMEV(a), withKind(pos, kWatchFlag), withHeights(2), withK(2), withMissing(pos, 101))
 				sc.StartHeight = start
-				sc.Dev.Dup, sc.Dev.Stale = false, false
+				sc.Dev.Dup = false
 				if tier != "thorough" {
 					sc.K = 1
 				}
